@@ -29,11 +29,13 @@ int strcmp(const char *a, const char *b) { g_sc_a = a; g_sc_b = b; g_sc_n++; ret
 
 /* functions of loom.c (outside this unit): most general behaviour + call log */
 unsigned g_srm_n; struct loom *g_srm_loom[3]; int g_srm_ret[3], g_srm_en[3];
+int w_srm_ret0, w_srm_ret1, w_srm_ret2, w_srm_en0, w_srm_en1, w_srm_en2;   /* replay witnesses (scalars) */
 int loom_set_rank_min(struct loom *loom)
 {
 	unsigned k = g_srm_n++;
 	int r = nondet_bool() ? -1 : 0;
 	int en = nondet_bool() ? 1 : 0;
+	if (k == 0) { w_srm_ret0 = r; w_srm_en0 = en; } else if (k == 1) { w_srm_ret1 = r; w_srm_en1 = en; } else if (k == 2) { w_srm_ret2 = r; w_srm_en2 = en; }
 	loom->rank_enabled = en;      /* may be set even when it fails (loom.c does) */
 	loom->rank_min = nondet_int();
 	if (k < 3) { g_srm_loom[k] = loom; g_srm_ret[k] = r; g_srm_en[k] = en; }
